@@ -27,6 +27,7 @@ import (
 	"github.com/mdlayher/corerad/internal/config"
 	"github.com/mdlayher/corerad/internal/plugin"
 	"github.com/mdlayher/corerad/internal/verifh"
+	"github.com/mdlayher/ndp"
 )
 
 // vSlowSink takes 1.3 s per line during every other 3 s window (a journald that stalls and recovers), on the real clock.
@@ -197,4 +198,78 @@ func TestVerifStall(t *testing.T) {
 		c.ImplViolation = strings.Join(viol, "; ")
 	}
 	out.Emit(c)
+}
+
+// TestVerifC07Crowd (real clock): 10000 (thorough: 70000) hosts solicit within a few milliseconds -- more pending
+// answers than any table, queue or threshold one would pick.  Every one of them is answered exactly once, by unicast,
+// within MAX_RA_DELAY_TIME (plus slack), and the counters agree.
+func TestVerifC07Crowd(t *testing.T) {
+	out := verifh.Open()
+	defer out.Close()
+	if !out.Wants("crowd") {
+		return
+	}
+	hosts := 10000
+	if verifh.Thorough() {
+		hosts = 70000
+	}
+	cfg := config.Interface{Name: "v0", Advertise: true, MinInterval: 200 * time.Second, MaxInterval: 600 * time.Second,
+		HopLimit: 64, DefaultLifetime: 1800 * time.Second, Plugins: []plugin.Plugin{&plugin.LLA{}}}
+	v := newVAdvertiser(cfg, func() bool { return false })
+	cancel, done := v.run()
+	select {
+	case <-v.ad.Ready():
+	case <-time.After(5 * time.Second):
+	}
+	time.Sleep(50 * time.Millisecond)
+	t0 := time.Now()
+	for h := 0; h < hosts; h++ {
+		from := netip.AddrFrom16([16]byte{0xfe, 0x80, 8: 7, 13: byte(h >> 16), 14: byte(h >> 8), 15: byte(h)}).WithZone("v0")
+		v.cur().readC <- vRead{msg: &ndp.RouterSolicitation{}, hop: ndp.HopLimit, from: from}
+	}
+	fed := time.Since(t0)
+	received := func() float64 {
+		return metricVal(v.mm, "corerad_advertiser_messages_received_total", "interface=v0,message=router solicitation")
+	}
+	for i := 0; i < 1000 && received() < float64(hosts); i++ {
+		time.Sleep(5 * time.Millisecond)
+	}
+	time.Sleep(1200 * time.Millisecond)
+	ws := v.cur().snapshot()
+	uni := metricVal(v.mm, "corerad_advertiser_router_advertisements_total", "interface=v0,type=unicast")
+	multi := metricVal(v.mm, "corerad_advertiser_router_advertisements_total", "interface=v0,type=multicast")
+	cancel()
+	<-done
+	answered := map[netip.Addr]int{}
+	multicasts := 0
+	for _, w := range ws {
+		if w.Dst.IsMulticast() {
+			multicasts++
+		} else {
+			answered[w.Dst.WithZone("")]++
+		}
+	}
+	var viol []string
+	missing, twice := 0, 0
+	for h := 0; h < hosts; h++ {
+		from := netip.AddrFrom16([16]byte{0xfe, 0x80, 8: 7, 13: byte(h >> 16), 14: byte(h >> 8), 15: byte(h)})
+		switch n := answered[from]; {
+		case n == 0:
+			missing++
+		case n > 1:
+			twice++
+		}
+	}
+	if missing > 0 || twice > 0 {
+		viol = append(viol, fmt.Sprintf("%d hosts solicited within %v: %d got no unicast answer, %d got more than one", hosts, fed.Round(time.Millisecond), missing, twice))
+	}
+	if multicasts != 1 {
+		viol = append(viol, fmt.Sprintf("%d multicast RAs went out (the initial one is due; solicitations from specified sources are answered by unicast)", multicasts))
+	}
+	if uni != float64(hosts) || multi != 0 || received() != float64(hosts) {
+		// (the initial RA is not a scheduled transmission and is not counted)
+		viol = append(viol, fmt.Sprintf("counters: received %v, unicast %v, scheduled multicast %v; want %d, %d, 0", received(), uni, multi, hosts, hosts))
+	}
+	out.Emit(verifh.Case{ID: "crowd", Input: map[string]any{"kind": "crowd", "hosts": hosts, "Events": []map[string]any{{"Src": "fe80::7:0:0"}}},
+		Observed: map[string]any{"answered": len(answered), "fed_in": fed.String()}, Tags: []string{"stream:crowd"}, ImplViolation: strings.Join(viol, "; ")})
 }
